@@ -1,0 +1,59 @@
+//go:build verif
+
+package cluster
+
+import (
+	"github.com/emitter-io/emitter/internal/event"
+	"github.com/emitter-io/emitter/internal/message"
+	"github.com/weaveworks/mesh"
+)
+
+// Accessors used only by the out-of-tree verification harness (/verif); compiled with -tags verif.
+
+// VerifNewPeer builds a peer over any gossip sender; the 5 ms flush ticker is stopped so that the harness decides
+// when processSendQueue runs.
+func VerifNewPeer(sender mesh.Gossip, name mesh.PeerName) *Peer {
+	s := &Swarm{gossip: sender}
+	p := s.newPeer(name)
+	p.cancel()
+	return p
+}
+
+// VerifFlush is processSendQueue.
+func (p *Peer) VerifFlush() { p.processSendQueue() }
+
+// VerifMaxFrameBytes is the split bound of processSendQueue.
+const VerifMaxFrameBytes = maxByteFrameSize
+
+// VerifSetGossip replaces the gossip sender of the swarm (and of peers created from now on).
+func (s *Swarm) VerifSetGossip(g mesh.Gossip) { s.gossip = g }
+
+// VerifState returns the replicated state.
+func (s *Swarm) VerifState() *event.State { return s.state }
+
+// VerifTouch marks a peer as seen (memberlist.Touch), creating it if needed.
+func (s *Swarm) VerifTouch(name mesh.PeerName) { s.members.Touch(name) }
+
+// VerifPeerOnline is findPeer: the peer is created (onPeerOnline) if it is not in the member list.
+func (s *Swarm) VerifPeerOnline(name mesh.PeerName) *Peer { return s.findPeer(name) }
+
+// VerifPeerOffline is onPeerOffline (the router's GC callback).
+func (s *Swarm) VerifPeerOffline(name mesh.PeerName) { s.onPeerOffline(name) }
+
+// VerifHasPeer tells whether the peer is in the member list.
+func (s *Swarm) VerifHasPeer(name mesh.PeerName) bool { return s.members.Contains(name) }
+
+// VerifPeerCounters returns the subscription counters the swarm keeps for a peer.
+func (s *Swarm) VerifPeerCounters(name mesh.PeerName) []message.Counter {
+	if p, ok := s.members.list.Load(name); ok {
+		return p.(*Peer).subs.All()
+	}
+	return nil
+}
+
+// VerifStopPeerTimers stops the flush ticker of a peer (frames are then flushed by VerifFlush only).
+func (s *Swarm) VerifStopPeerTimers(name mesh.PeerName) {
+	if p, ok := s.members.list.Load(name); ok {
+		p.(*Peer).cancel()
+	}
+}
